@@ -65,7 +65,11 @@ SpreadsFrom(sp, b, j) ==
        \o SpreadsFrom(sp, b, j + 1)
 SpreadsOf(sp, b) == SpreadsFrom(sp, b, 1)
 
-Section(c, b) == Payload(c.pay, b) \o SpreadsOf(c.sp, b)
+\* "deep": the spreads of a section sit one field level down (`z { ...F ...G }`), so that the
+\* fragments a definition spreads are not all direct children of its selection set
+Section(c, b) == IF Shape = "deep" /\ c.sp # {}
+                 THEN Payload(c.pay, b) \o << Fld(b + 9, "", "z", <<>>, SpreadsOf(c.sp, b)) >>
+                 ELSE Payload(c.pay, b) \o SpreadsOf(c.sp, b)
 
 RECURSIVE FragsFrom(_,_)
 FragsFrom(f, i) ==
@@ -84,7 +88,8 @@ Inl(id, on, sel) == [k |-> "inline", id |-> id, on |-> on, dirs |-> <<>>, sel |-
 \*   { o { <f[NF+1]> }  o { <o> } }
 NS == IF Shape = "nested" THEN NF + 2 ELSE IF Shape = "twin" THEN NF + 1 ELSE NF      \* sections chosen before the last one
 OpSel(f, o) ==
-  IF Shape = "twin"
+  IF Shape = "deep" THEN << Fld(92, "", "o", <<>>, Section(o, 10 * NF)) >>
+  ELSE IF Shape = "twin"
   THEN << Fld(92, "", "o", <<>>, Section(f[NF + 1], 40)), Fld(94, "", "o", <<>>, Section(o, 50)) >>
   ELSE IF Shape = "nested"
   THEN << Inl(91, "Q", << Fld(92, "", "o", <<>>, Section(f[NF + 1], 40)) >>),
